@@ -383,9 +383,12 @@ class Network(BaseModel):  # pylint: disable=too-many-public-methods
             dir_out_edges = self.graph.get_edges_from(rt_name,
                 filters=[lambda e: self.graph.edges[e]["src_dir"] is not None], with_name=True)
             non_dir_in_edges = self.graph.get_edges_to(rt_name,
-                filters=[lambda e: self.graph.edges[e]["dst_dir"] is None])
-            non_dir_out_edges = self.graph.get_edges_from(rt_name,
-                filters=[lambda e: self.graph.edges[e]["src_dir"] is None])
+                filters=[lambda e: self.graph.edges[e]["dst_dir"] is None], with_name=True)
+            # An undirected link uses the same port index in both directions:
+            # take the outgoing edges in the order of their incoming counterparts
+            non_dir_out_edges = [self.graph.get_edge_obj((dst, src))
+                                 for (src, dst), _ in non_dir_in_edges]
+            non_dir_in_edges = [edge_obj for _, edge_obj in non_dir_in_edges]
             if rt_obj.degree is not None:
                 num_edges = rt_obj.degree
             else:
